@@ -291,6 +291,19 @@ def check(ctx):
         for g in scope:
             for c in g.calls:
                 if short_path(c.path) in SHRINK and "String" in " ".join(c.generics[:1] + [c.self_ty or ""]):
+                    # a clear() that dominates every other use of the very set it empties makes that set a per-iteration scratch value
+                    # (indistinguishable from creating it at that point): nothing harvested is lost
+                    if c.name == "clear" and g is f and c.args:
+                        def root_(o):
+                            while o[0] == "proj":
+                                o = o[1]
+                            return o
+                        o0 = root_(f.origin(c.args[0]))
+                        if o0[0] == "call" and o0[1].name in ("new", "default", "with_capacity"):
+                            uses = [u for u in f.calls if u is not c and u is not o0[1] and any((lambda x: x[0] == "call" and x[1] is o0[1])(root_(f.origin(a_))) for a_ in u.args)]
+                            if uses and all(f.dominates(c.bb, u.bb) for u in uses):
+                                r1.ok("%s: clear() of a scratch set dominates its %d other uses" % (short_path(fid), len(uses)))
+                                continue
                     r1.bad(V(r1.id, fid, "worklist-shrunk:%s" % short_path(c.path), "names are removed from a name set by %s in the function that harvests type names, before resolution has seen every file" % short_path(c.path), c.file, c.line))
         r1.ok("%s: the harvested work list is only extended" % short_path(fid))
     check_builtin_table(S, r1)
@@ -401,6 +414,37 @@ def check(ctx):
     # collect_used_types closes transitively and filters by membership
     cut = P.find("TypeCollector::collect_used_types")
     for f in cut:
+        # the seed set handed to discover_nested_dependencies is a snapshot (clone) of the used set: nothing may be added to the used set after the
+        # snapshot and before the closure, else what was added late is declared but its own field types are never walked
+        from rulelib import blocks_reachable_from as _brf
+        dns = [c for c in f.calls if short_path(c.best) == "TypeCollector::discover_nested_dependencies" and c.bb in f.reach_blocks]
+        for dnc in dns:
+            o = f.origin(dnc.args[1]) if len(dnc.args) > 1 else ("?",)
+            while o[0] == "proj":
+                o = o[1]
+            if not (o[0] == "call" and o[1].name == "clone"):
+                continue
+            snap = o[1]
+            after = _brf(f, snap.bb)
+            late = []
+            for c in f.calls:
+                if c.bb not in after or c.bb == dnc.bb or not f.dominates(snap.bb, c.bb) or c.bb not in f.reach_blocks:
+                    continue
+                if f.dominates(dnc.bb, c.bb):
+                    continue
+                direct = short_path(c.best) == "TypeCollector::collect_referenced_types_from_structure" or short_path(c.path) in ("HashSet::insert", "HashSet::extend")
+                via_closure = False
+                for a in c.args:
+                    oo = f.origin(a)
+                    cl = oo[1].get("closure") if oo[0] == "aggr" and oo[1].get("agg") == "closure" else None
+                    if cl and cl in P.fns and any(short_path(x.best) == "TypeCollector::collect_referenced_types_from_structure" or short_path(x.path) == "HashSet::insert" for x in P.fns[cl].calls):
+                        via_closure = True
+                if direct or via_closure:
+                    late.append(c)
+            if late:
+                r3.bad(V(r3.id, f.id, "seed-snapshot-stale:%s" % short_path(late[0].best), "names are still added to the used set (%s) after the snapshot that seeds discover_nested_dependencies was taken: they are declared, but the types their fields reference are not" % short_path(late[0].best), late[0].file, late[0].line))
+            else:
+                r3.ok("collect_used_types: the closure is seeded with the complete used set")
         if any(short_path(c.best) == "TypeCollector::discover_nested_dependencies" for c in f.calls):
             r3.ok("collect_used_types closes over nested dependencies")
         else:
@@ -418,6 +462,13 @@ def check(ctx):
         else:
             r6.bad(V(r6.id, "TypeResolver::parse_type_structure", "result-arm", "the Result arm does not use the success type only"))
     check_emitter_reads_used_set(P, r6)
+    from c10 import struct_emitter_total
+    pend_, oks_ = [], []
+    struct_emitter_total(P, pend_, oks_, rid=r6.id)
+    for v_ in pend_:
+        r6.bad(v_)
+    for t_ in oks_:
+        r6.ok(t_)
     r3.require_floor(3, "insertion/closure facts")
     r6.require_floor(4, "minimality facts")
     rules += [r3, r6]
